@@ -222,7 +222,8 @@ def list_concat(cx, a, b):
     if "seq" in a.ghost or "seq" in b.ghost:
         sa, sb = as_seq(a), as_seq(b)
         if sa is not None and sb is not None:
-            return seq_list(z3.Concat(sa, sb))
+            make = a.ghost.get("seq_make") or b.ghost.get("seq_make")
+            return make(z3.Concat(sa, sb)) if make is not None else seq_list(z3.Concat(sa, sb))
     la, lb = list_len(a), list_len(b)
     n = int_binop("+", la, lb)
 
